@@ -619,7 +619,10 @@ SCALAR_SWAPS = [N.s_int(1), N.s_str('x'), N.s_float(1.5), N.s_bool(True),
                 N.s_null(), ['s', S.TAG_TS, '2001-12-14'], N.s_str(''),
                 N.s_str('1'), N.s_bool('false'), N.s_int(0), N.s_int(-3),
                 ['s', S.TAG_FLOAT, '.inf'], ['s', S.TAG_FLOAT, '.nan'],
-                N.s_str('true'), N.s_int('0x1F'), ['s', S.TAG_FLOAT, '1e5']]
+                N.s_str('true'), N.s_int('0x1F'), ['s', S.TAG_FLOAT, '1e5'],
+                ['s', S.TAG_INT, 'abc'], ['s', S.TAG_INT, '0x_'],
+                ['s', S.TAG_INT, ''], ['s', S.TAG_FLOAT, 'x'],
+                ['s', S.TAG_BOOL, 'maybe'], ['s', S.TAG_TS, 'noon']]
 
 
 def mutate(spec, rng, class_names=(), key_pool=()):
